@@ -205,6 +205,9 @@ func scanStringLiteralToken(buf string, pos int) Token {
 			}
 			c2 := buf[pos+i]
 			bb.WriteByte(c2)
+		} else if c == '\n' {
+			// a line break inside the literal: the Go string literal we emit must stay on one line.
+			bb.WriteString("\\n")
 		} else {
 			bb.WriteByte(c)
 		}
@@ -669,15 +672,22 @@ func ParseSInterP(buf string) frt.Tuple2[string, []string] {
 	for i < end {
 		c := buf[i]
 		if c == '\\' {
-			// write though escape seq to Golang string literal.
-			// This is necessary for brace escape.
-			res.WriteByte(c)
 			i++
 			if i == end {
 				panic("escape just before end, wrong")
 			}
 			c2 := buf[i]
-			res.WriteByte(c2)
+			if c2 == '{' || c2 == '}' {
+				// brace escape: a literal brace (Go has no such escape sequence).
+				res.WriteByte(c2)
+			} else {
+				// write though escape seq to Golang string literal.
+				res.WriteByte(c)
+				res.WriteByte(c2)
+			}
+		} else if c == '%' {
+			// the result is a format string of Sprintf.
+			res.WriteString("%%")
 		} else if c == '{' {
 			i++
 			vbeg := i
